@@ -22,7 +22,7 @@ RULE = ("pairs of YAML documents (root mapping or sequence, one nested sequence)
         "least one anchor name present in both documents.")
 
 NAMES = ["x", "y", "x_1"]
-VALUES = ["1", "2", "1.0", "true", "a", "!t a", "!u a", "!t b"]
+VALUES = ["1", "2", "1.0", "true", "a", "!t a", "!u a", "!t b", "false", "''", "0.0"]   # incl. values Python reads as false
 MODES = ["stop", "left", "right", "rename"]
 
 
@@ -218,6 +218,8 @@ def run_case(case, log, drv_reqs, drv_ctx):
     mergeat = case.get("mergeat")
     if chain is not None:
         return run_chain(case, log, rec)
+    if case.get("via"):
+        return run_cli(case, log, rec)
     # ---- (1) resolution step alone
     lhs, rhs = load(ltxt, log), load(rtxt, log)
     ids = {}
@@ -268,6 +270,91 @@ def run_chain(case, log, rec):
                             "first merge_with raised %s" % type(e).__name__))
         return rec
     return judge_merge(merger, rhs, case["r"], case["mode"], rec)
+
+
+def run_cli(case, log, rec):
+    """The policy as the yaml-merge command receives it: -a/--anchors on the command line (via='cli'), [defaults] anchors
+    of a --config file (via='config'), both with the command line overriding (via='both': `cfgmode` in the file), or none
+    (via='none': built-in stop).  Clauses judged on the command's own outcome: it refuses iff the effective policy is stop
+    and a same-name anchor differs; otherwise its output is the document the merge under the effective policy defines
+    (the same merge through the API, whose clauses are judged by the other cases)."""
+    import os
+    from yamlpath.merger import Merger, MergerConfig
+    from yamlpath.merger.exceptions import MergeException
+    from yamlpath.common import Parsers
+    from harness.props import cli_common as cc
+    via, mode = case["via"], case["mode"]
+    rec["cli"] = True
+    d = cc.tmpdir()
+    lf, rf, cf = (os.path.join(d, "c10-%d-%s" % (os.getpid(), n)) for n in ("l.yaml", "r.yaml", "m.ini"))
+    for p, t in ((lf, case["l"]), (rf, case["r"])):
+        with open(p, "w") as fh:
+            fh.write(t)
+    argv = ["--nostdin"]
+    if via in ("config", "both"):
+        with open(cf, "w") as fh:
+            fh.write("[defaults]\nanchors = %s\n" % (case["cfgmode"] if via == "both" else mode))
+        argv += ["--config", cf]
+    if via in ("cli", "both"):
+        argv += ["--anchors", mode]
+    if case.get("arrays"):
+        argv += ["--arrays", case["arrays"]]
+    argv += [lf, rf]
+    lhs, rhs = load(case["l"], log), load(case["r"], log)
+    lanch = {n: nd for n, nd, _i in anchored_nodes(lhs)}
+    ranch = {n: nd for n, nd, _i in anchored_nodes(rhs)}
+    common = [n for n in ranch if n in lanch]
+    conflicts = [n for n in common if not veq(lanch[n], ranch[n])]
+    rec["common"], rec["conflicts"] = len(common), len(conflicts)
+    res = cc.run_inproc("merge", argv)
+    if res.get("timeout"):
+        rec["viol"].append(("timeout", "yaml-merge did not finish"))
+        return rec
+    if "crash" in res:
+        rec["viol"].append(("cli-" + res["crash"] + "@" + res.get("site", "?"), "yaml-merge %s let %s escape" % (argv[:-2], res["crash"])))
+        return rec
+    refused = res["rc"] != 0
+    want_refused = mode == "stop" and bool(conflicts)
+    how = {"cli": "--anchors=%s" % mode, "config": "[defaults] anchors = %s in --config" % mode,
+           "both": "--anchors=%s over [defaults] anchors = %s" % (mode, case.get("cfgmode")), "none": "no anchor policy given (stop)"}[via]
+    if refused and not want_refused:
+        # an exit status other than the refusal may be a structural merge error: the API decides
+        merger = Merger(log, lhs, MergerConfig(log, SimpleNamespace(anchors=mode, arrays=case.get("arrays", "all"))))
+        try:
+            merger.merge_with(rhs)
+        except MergeException:
+            return rec
+        except Exception:  # noqa: judged by the API cases
+            return rec
+        rec["viol"].append(("policy-delivery:%s:refused-under-%s" % (via, mode),
+                            "yaml-merge with %s exits %d (%s) on a merge the policy %s resolves" % (
+                                how, res["rc"], res["err"].strip().split("\n")[-1][:120], mode)))
+        return rec
+    if want_refused and not refused:
+        rec["viol"].append(("policy-delivery:%s:stop-accepts-conflict" % via,
+                            "yaml-merge with %s merged although %s differ" % (how, conflicts)))
+        return rec
+    if refused:
+        return rec
+    merger = Merger(log, lhs, MergerConfig(log, SimpleNamespace(anchors=mode, arrays=case.get("arrays", "all"))))
+    try:
+        merger.merge_with(rhs)
+        y = Parsers.get_yaml_editor()
+        merger.prepare_for_dump(y, "out.yaml")
+        buf = io.StringIO()
+        y.dump(merger.data, buf)
+    except Exception:  # noqa: judged by the API cases
+        return rec
+    got, ok = Parsers.get_yaml_data(Parsers.get_yaml_editor(), log, res["out"], literal=True)
+    exp, ok2 = Parsers.get_yaml_data(Parsers.get_yaml_editor(), log, buf.getvalue(), literal=True)
+    if not ok2:
+        return rec
+    def view(dt):
+        return [plain_json(dt), sorted((n, json.dumps(vj(nd), sort_keys=True)) for n, nd, _i in anchored_nodes(dt))]
+    if not ok or view(got) != view(exp):
+        rec["viol"].append(("policy-delivery:%s:not-%s" % (via, mode),
+                            "yaml-merge with %s wrote %r; the policy %s defines %r" % (how, res["out"], mode, buf.getvalue())))
+    return rec
 
 
 def judge_merge(merger, rhs, rtxt, mode, rec):
@@ -388,7 +475,9 @@ def worker(cases):
             continue
         if rec.get("oom"):
             out["skip"] += 1     # counted as out of model; the direct clauses below were still judged
-        key = "%s|%s|%s|%s" % (c["l"], c.get("r0"), c["r"], c["mode"])
+        key = "%s|%s|%s|%s|%s" % (c["l"], c.get("r0"), c["r"], c["mode"], c.get("via"))
+        if c.get("via"):
+            out["hist"]["policy via " + c["via"]] = out["hist"].get("policy via " + c["via"], 0) + 1
         if rec.get("common"):
             out["nontrivial"].add(hash(key))
         h = "mode=%s conflicts=%s" % (c["mode"], min(rec.get("conflicts", 0), 2))
@@ -469,6 +558,21 @@ def gen_cases(chk):
         pl, pr = pools[rng.choice(["map", "map", "seq"])]
         cases.append({"l": rng.choice(pl), "r": rng.choice(pr), "mode": rng.choice(MODES),
                       "arrays": rng.choice(["all", "all", "unique", "left", "right"])})
+    # the policy as the yaml-merge command receives it: command line, configuration file, both, none
+    for c in CORPUS:
+        for m in MODES:
+            for via in ("cli", "config", "both"):
+                cases.append(dict(c, mode=m, via=via, cfgmode=MODES[(MODES.index(m) + 1) % 4]))
+        cases.append(dict(c, mode="stop", via="none"))
+    for _ in range(n // 12):
+        kind = rng.choice(["map", "map", "seq"])
+        pl, pr = pools[kind]
+        via = rng.choice(["cli", "config", "config", "both", "none"])
+        m = "stop" if via == "none" else rng.choice(MODES)
+        c = {"l": rng.choice(pl), "r": rng.choice(pr), "mode": m, "via": via, "arrays": rng.choice(["all", "unique"])}
+        if via == "both":
+            c["cfgmode"] = rng.choice(MODES)
+        cases.append(c)
     return cases
 
 
